@@ -61,26 +61,32 @@ func area(r []Point, i int, p Polygon, bounds []*Bounds) float64 {
 	}
 
 	// All of the points on this ring are on the edge of the polygon: rings
-	// may touch in their vertices (a hole in every corner of its shell). The
-	// middle of one of the ring's sides usually is clear of the other rings
-	// and decides in the same way.
-	for ii := range r {
-		next := r[(ii+1)%len(r)]
-		mid := Point{X: r[ii].X + (next.X-r[ii].X)/2, Y: r[ii].Y + (next.Y-r[ii].Y)/2}
-		if mid == r[ii] || mid == next {
-			continue
+	// may touch in their vertices (a hole in every corner of its shell). A
+	// point inside one of the ring's sides that is clear of the other rings
+	// decides in the same way: the middles of the sides are tried first, then
+	// their quarters, eighths and so on (other rings can touch a side in its
+	// middle as well, but only in a finite number of points).
+	for den := 2.; den <= 64; den *= 2 {
+		for ii := range r {
+			next := r[(ii+1)%len(r)]
+			for num := 1.; num < den; num += 2 {
+				pt := Point{X: r[ii].X + (next.X-r[ii].X)*(num/den), Y: r[ii].Y + (next.Y-r[ii].Y)*(num/den)}
+				if pt == r[ii] || pt == next {
+					continue
+				}
+				in := pointInPolygon(pt, pWithoutRing, boundsWithoutRing)
+				if in == OnEdge {
+					continue
+				} else if in == Outside {
+					return A // This is not a hole.
+				}
+				return -A // This is a hole
+			}
 		}
-		in := pointInPolygon(mid, pWithoutRing, boundsWithoutRing)
-		if in == OnEdge {
-			continue
-		} else if in == Outside {
-			return A // This is not a hole.
-		}
-		return -A // This is a hole
 	}
 
-	// Every vertex and the middle of every side of this ring are on the edge
-	// of the polygon. In this case we check if this ring exactly matches, and
+	// Every vertex and every point tried on the sides of this ring are on the
+	// edge of the polygon. In this case we check if this ring exactly matches, and
 	// therefore cancels out, any of the other rings.
 	matches := 0
 	for _, rr := range pWithoutRing {
